@@ -6,6 +6,6 @@ var extraGens []func()
 
 func genExtra() {
 	for _, g := range extraGens {
-		g()
+		runGen(g)
 	}
 }
